@@ -45,6 +45,10 @@ CHECKS = {
           "Expected values come from reftime.rs (days-from-civil calendar, exact integer instants) and, for named zones, from CPython zoneinfo at run time; every instance is evaluated as a FEEL expression by the real parser and evaluator and compared as text.",
           "Trusts reftime.rs (weekday spot-checked against CPython at each run) and the system tzdata used by zoneinfo for twelve zones at six local times away from transitions. Values are built through the literal readers that C14 checks.",
           "DESIGN.md §4 C15"),
+  "C16": ("exhaustive enumeration of all ordered pairs of a type universe (every constructor over the ten simple types at depth 1 incl. functions of 0, 1 and 2 parameters and contexts of 0..2 entries, plus a depth-2 closure over a core) and all ordered triples of a triple core; laws plus agreement with 25-line reference relations; coercion of every value of a 32-value alphabet to every target of the core",
+          "Every ordered pair: reflexivity, T <= Any, Null <= T, symmetry of equivalence, equivalence implies mutual conformance, and agreement of is_equivalent / is_conformant with the reference relations. Every ordered triple of the core: transitivity of both relations (from relation matrices computed by the implementation). Every (target, value): coerced() equals the reference (identity / singleton wrap / unwrap / null), its type conforms to the target or it is null, coercing twice changes nothing, and a FEEL invocation of a function with that typed parameter gives the same.",
+          "Trusts the reference relations in engines/c16.rs. Types deeper than 2 and contexts with more than two entries are outside the bound.",
+          "DESIGN.md §4 C16"),
   "C06": ("bounded exhaustive enumeration of syntax trees (every constructor in every slot of every constructor, depth-3 spines) x parenthesisations x layouts, and of every string escape of every code point, against a precedence-table unparser",
           "Every tree of the bounded space is rendered fully parenthesised, minimally parenthesised and with each needed pair removed, in six token-preserving layouts, and parsed by the real parser; the parsed tree is compared with the generating tree. All 1 114 112 code points in every escape spelling and all 1 048 576 surrogate pairs are lexed. A coverage statement within the depth bound, not a sample.",
           "Trusts the transcribed precedence table in harness/vh/src/term.rs (validated by this run itself: a wrong table shows up as a mismatch) and AstNode's derived PartialEq. Trees deeper than 3 are outside the bound.",
